@@ -40,6 +40,7 @@ PROP = [  # (substring of the subject, property, what failed)
     ("GatherAvailableAncestors lost async parents", "C17", "with the previous repair alone a module whose dependency threw was fulfilled"),
     ("PendingAsyncDependencies of cycle members", "C17", "a cycle above a module with top-level await never settled / ran in the wrong order / panicked"),
     ("module var bindings were not initialized", "C17", "an importer in a cycle reading an exported var before the exporter ran threw ReferenceError (spec: undefined)"),
+    ("exponentiation with a NaN exponent", "C01", "`let e = NaN; 1 ** e` evaluated to 1 (spec: NaN)"),
     ("AST printer", "C19", None),
     ("Map/Set clear() under a live iterator", "C20", "`m.clear(); m.set(4,4); it.next()` on a running iterator reported done (spec/V8: 4) — deterministic deviation found by the C20 model refinement"),
     ("for_each_native looped forever", "C20", "JsMap/JsSet::for_each_native hung on a Map that had a deletion while an iterator was alive"),
